@@ -42,6 +42,7 @@ import (
 //verif:stub encoding/json.Unmarshal => hJSONUnmarshal
 //verif:stub (github.com/nuts-foundation/go-did/vc.VerifiableCredential).SubjectDID => hSubjectDID
 //verif:stub github.com/nuts-foundation/go-did/vc.unmarshalAnySliceToTarget => hUnmarshalAnySlice
+//verif:stub (github.com/nuts-foundation/go-did/vc.VerifiablePresentation).UnmarshalProofValue => hVPUnmarshalProofValue
 
 // hW is the world of the running harness (package variables are re-initialised for every path).
 var hW *hWorld
@@ -360,6 +361,11 @@ func hUnmarshalAnySlice(s []interface{}, target interface{}) error {
 	}
 	*t = out
 	return nil
+}
+
+// hVPUnmarshalProofValue: contract of VerifiablePresentation.UnmarshalProofValue = all proofs decoded into the target slice.
+func hVPUnmarshalProofValue(vp vc.VerifiablePresentation, target interface{}) error {
+	return hUnmarshalAnySlice(vp.Proof, target)
 }
 
 // hLDProofVerify: verdict of canonicalisation + JWS verification with the given key.
